@@ -112,6 +112,39 @@ def r17_break_value(ctx, t):
         ctx.hit('R17')
 
 
+def r19_panics(ctx, t):
+    """assert!(C, "msg"); -> if !(C) { rt_panic(); }   panic!("msg") -> rt_panic()   (shim: requires false)"""
+    t = _sub(ctx, 'R19', r'\bassert!\(((?:[^()"]|\([^()]*\))*?),\s*"[^"]*"\s*\);', r'if !(\1) { rt_panic(); }', t)
+    t = _sub(ctx, 'R19', r'\bpanic!\("[^"]*"\)', 'rt_panic()', t)
+    return t
+
+
+def r3b_header_writes(ctx, t):
+    """insert `st.touch_hdr();` (no-op, requires writable) before every statement that writes a header field"""
+    lines = t.split('\n')
+    out = []
+    pat = re.compile(r'st\.hdr\.\w+\s*(\+=|-=|=(?!=))|st\.hdr\s*\.\s*\w+\s*\.\s*(store|fetch_add|fetch_sub|compare_exchange|compare_exchange_weak)\(')
+    i = 0
+    while i < len(lines):
+        l = lines[i]
+        # a method chain may span lines: look at the statement text up to its first ';' or '{'
+        stmt = l
+        k = i
+        while stmt.strip() and not re.search(r'[;{}]\s*$', stmt) and k + 1 < len(lines) and k - i < 6:
+            k += 1
+            stmt += ' ' + lines[k].strip()
+        if pat.search(stmt) and not l.strip().startswith('.') and not re.match(r'\s*(\}|\)|\.)', l):
+            indent = re.match(r'\s*', l).group(0)
+            out.append(indent + 'st.touch_hdr();')
+            ctx.hit('R3b')
+            out.extend(lines[i:k + 1])
+            i = k + 1
+            continue
+        out.append(l)
+        i += 1
+    return '\n'.join(out)
+
+
 def common_state(ctx, t):
     """R2-R5, R8: header access, cells, state passing."""
     # R3 header
@@ -204,6 +237,8 @@ def translate(text, ctx, closure_specs=()):
         t = r12_destructuring_assign(ctx, t)
         t = r13_const_in_fn(ctx, t)
         t = r17_break_value(ctx, t)
+    if ctx.profile != 'verbatim':
+        t = r19_panics(ctx, t)
     sig, body = r1_signature(ctx, t)
     if ctx.profile in ('unsync', 'sync'):
         sig = _sub(ctx, 'R4', r'&UnsafeCell<u64>', 'CellRef', sig)
@@ -211,6 +246,7 @@ def translate(text, ctx, closure_specs=()):
         body = common_state(ctx, body)
         if ctx.profile == 'sync':
             body = sync_atomics(ctx, body)
+        body = r3b_header_writes(ctx, body)
     body = r14_closures(ctx, body, closure_specs)
     if ctx.profile != 'verbatim':
         body = re.sub(r'(?<![:\w])mem::(size_of|align_of|needs_drop)', r'core::mem::\1', body)
